@@ -21,7 +21,7 @@ def cases(tier, seed):
     q = tier != 'thorough'
     cs = []
     for n in ((3, 4) if q else (3, 4, 5)):
-        cs.append(dict(name='makerandCIJ_und/n%d' % n, fn='makerandCIJ_und', kind='rand', n=n, directed=False, weight=2 ** n))
+        cs.append(dict(name='makerandCIJ_und/n%d' % n, fn='makerandCIJ_und', kind='rand', n=n, directed=False, weight=2 ** n, **(dict(khi=3) if n >= 5 else {})))
         if n <= 3: cs.append(dict(name='makerandCIJ_dir/n%d' % n, fn='makerandCIJ_dir', kind='rand', n=n, directed=True, weight=2 ** n))
         else:
             # 12+ cells: "K distinct cells" is a pigeonhole argument; keep K small (or nearly full) so z3 can finish
@@ -38,7 +38,8 @@ def cases(tier, seed):
     for n, szs in (((4, (1, 2)),) if q else ((4, (1, 2)), (8, (1, 2, 3)))):
         for sz in szs:
             cs.append(dict(name='makeevenCIJ/n%d/sz%d' % (n, sz), fn='makeevenCIJ', kind='even', n=n, sz=sz, weight=10 * n))
-            cs.append(dict(name='makefractalCIJ/n%d/sz%d' % (n, sz), fn='makefractalCIJ', kind='fractal', n=n, sz=sz, E=2, weight=10 * n))
+            if n <= 4:     # 64 symbolic uniforms at n = 8: the count identity is beyond z3 (unknown, measured)
+                cs.append(dict(name='makefractalCIJ/n%d/sz%d' % (n, sz), fn='makefractalCIJ', kind='fractal', n=n, sz=sz, E=2, weight=10 * n))
     for inv, outv in (([1, 1, 1, 0], [1, 0, 1, 1]), ([1, 1], [1, 1]), ([1, 1, 1], [1, 1, 1]), ([2, 1, 0], [1, 1, 1]), ([2, 1, 1], [1, 2, 1])) + ((([2, 2, 2], [2, 2, 2]),) if not q else ()):
         cs.append(dict(name='makerandCIJdegreesfixed/%s/%s' % (''.join(map(str, inv)), ''.join(map(str, outv))), fn='makerandCIJdegreesfixed', kind='degfix', inv=inv, outv=outv, weight=30 * sum(inv) ** 2, shard_depth=6,
                        path_cap=(150 if (q and sum(inv) >= 4) else None)))   # 4 stubs: ~100k paths; quick explores 150 per shard (stated bound)
